@@ -302,6 +302,49 @@ def runTpLine (r : Report) (sec : Nat) (st : TpSt) (l : Line) : Report × TpSt :
     | none => fail "unparsable-line"
   | _ => fail "bad-op"
 
+/-- `par` lines: several requests inside `ParseToken` of one parser at once. By `Conc.concurrent_jwt_outcome_is_sequential`
+the outcome of each is the sequential one under ANY history, so the model is `parseToken` on an empty history. -/
+def runTpcLine (r : Report) (sec : Nat) (s p : String) (l : Line) : Report :=
+  let fail (msg : String) := r.mismatch sec l.idx msg (joinSp l.op)
+  match l.op with
+  | "par" :: args =>
+    let o := l.obs
+    match (kv? args "now").bind String.toInt?, (kv? o "n").bind String.toNat? with
+    | some now, some n =>
+      let r := { r with ops := r.ops + 1 }
+      let r := r.addCover s!"tpc-requests-at-once-{if n ≥ 5 then "5-or-more" else toString n}"
+      (List.range n).foldl (fun r i =>
+        let key (k : String) := s!"{k}.{i}"
+        let parsed : Option (TokenFacts String × Bool × Bool) := do
+          let alg ← kv? o (key "alg")
+          let algS ← if alg = "-" then some none else (unhexStr alg).map some
+          let sigcur := kv? o (key "sigcur") = some "1"
+          let sigprev := kv? o (key "sigprev") = some "1"
+          let f : TokenFacts String := {
+            present := kv? o (key "present") = some "1", segs := (← (← kv? o (key "segs")).toNat?),
+            hdrOk := kv? o (key "hdr") = some "1", clmOk := kv? o (key "clm") = some "1", alg := algS,
+            sigOk := fun x => (x = s && sigcur) || (x = p && p ≠ "" && sigprev),
+            exp := (← parseTimeClaim (← kv? o (key "exp"))), nbf := (← parseTimeClaim (← kv? o (key "nbf"))),
+            iat := (← parseTimeClaim (← kv? o (key "iat"))), claims := [] }
+          pure (f, (← kv? o (key "err")) ≠ "0", (← kv? o (key "valid")) = "1")
+        match parsed with
+        | none => r.mismatch sec l.idx "unparsable-request" (toString i)
+        | some (f, err, valid) =>
+          let m := (parseToken (jwtVerify f now) {} s p 0).2
+          let mValid := match m with | .tok v _ => v | .err => false
+          let r := if m.isErr ≠ err ∨ mValid ≠ valid then
+              r.mismatch sec l.idx s!"request {i}: err={m.isErr} valid={mValid}" s!"err={err} valid={valid}" else r
+          let r := r.addCover (
+            if !m.isErr then (if f.sigOk s then "tpc-accepted-current" else "tpc-accepted-previous")
+            else if (f.sigOk s || f.sigOk p) ∧ !timeValid f now then "tpc-refused-time-claims-invalid-under-a-configured-secret"
+            else "tpc-refused")
+          if !err ∧ !credentialOk f now s p then
+            r.violation sec l.idx s!"tp: with {n} requests inside ParseToken at once, request {i} was accepted although its token is not valid under the current or the previous secret (signature and time claims)"
+          else if !err ∧ !valid then r.violation sec l.idx "tp: ParseToken returned a token that is not marked valid without an error"
+          else r) r
+    | _, _ => fail "bad-op"
+  | _ => fail "bad-op"
+
 /-! ### content security / cryption -/
 
 def compareResp (r : Report) (sec line : Nat) (m0 m1 : Resp) (obs : Resp) : Report :=
@@ -472,6 +515,32 @@ def runCsLine (r : Report) (sec : Nat) (cfg : CsCfg) (scb : String) (l : Line) :
 def runCryptLine (r : Report) (sec : Nat) (key : Bytes) (limit : Int) (l : Line) : Report :=
   let fail (msg : String) := r.mismatch sec l.idx msg (joinSp l.op)
   match l.op with
+  | "big" :: _ =>
+    -- a PROPERLY encrypted body of `blen` bytes around the cap: the model decides on lengths (`readAdmits`, proven equal to
+    -- `readBody`'s decision for every body: readBody_isSome_iff_admits), the harness states whether the handler saw the payload
+    let o := l.obs
+    match (kv? o "cl").bind String.toInt?, (kv? o "blen").bind String.toNat?, (kv? o "status").bind String.toNat? with
+    | some cl, some blen, some status =>
+      let ran : Bool := decide (kv? o "ran" ≠ some "0")
+      let seenOk : Bool := decide (kv? o "seenok" = some "1")
+      let keyOk := key.length = 16 || key.length = 24 || key.length = 32
+      let admits := readAdmits limit cl blen
+      let cap : Int := if cl > 0 then limit else unknownCap limit
+      let r := { r with ops := r.ops + 1 }
+      let cls := if (blen : Int) + 1 = cap then "one-below" else if (blen : Int) = cap then "at" else if (blen : Int) = cap + 1 then "one-over"
+                 else if (blen : Int) > cap ∧ cap > 0 then "far-over" else "uncapped"
+      let r := r.addCover s!"crypt-default-cap-{cls}-{if cl > 0 then "known-length" else "chunked"}-{if admits then "read-whole" else "refused"}"
+      let mRan := admits && keyOk
+      let r := if mRan ≠ ran ∨ (if mRan then 200 else 400) ≠ status then
+          r.mismatch sec l.idx s!"ran={mRan} status={if mRan then 200 else 400}" s!"ran={ran} status={status}" else r
+      if ran ∧ !admits then
+        r.violation sec l.idx s!"crypt: the handler ran although the body of {blen} bytes is over the cap of {cap} bytes [cl={cl}, limit {limit}]"
+      else if ran ∧ !seenOk then
+        r.violation sec l.idx s!"crypt: at the cap the handler did not see the decrypted payload of the whole body ({blen} bytes, cap {cap}) [cl={cl}, limit {limit}]"
+      else if !ran ∧ admits ∧ keyOk then
+        r.violation sec l.idx s!"crypt: a properly encrypted payload in a body of {blen} bytes (cap {cap}) did not reach the handler (status {status})"
+      else r
+    | _, _, _ => fail "unparsable-line"
   | "req" :: a =>
     let o := l.obs
     let parsed : Option (Bytes × Bytes × Int × List (Bytes × Bytes)) := do
@@ -481,9 +550,17 @@ def runCryptLine (r : Report) (sec : Nat) (key : Bytes) (limit : Int) (l : Line)
       let inner : Inner := fun _ => reply
       let C := oracleCipher table 0xEE
       let hk := kvStr a "hk"
-      let m0 := applyOutcome hk (cryptionHandler C limit key cl body inner)
-      let m1 := applyOutcome hk (cryptionHandler (oracleCipher table 0xDD) limit key cl body inner)
+      -- wk=fail:n / short:n: the underlying writer takes only the first n bytes of what flush writes
+      let wk := (kvStr a "wk").splitOn ":"
+      let part (m : Resp) : Resp := match wk with
+        | [_, n] => writtenPrefix (n.toNat?.getD 0) m
+        | _ => m
+      let m0 := part (applyOutcome hk (cryptionHandler C limit key cl body inner))
+      let m1 := part (applyOutcome hk (cryptionHandler (oracleCipher table 0xDD) limit key cl body inner))
       let r := { r with ops := r.ops + 1 }
+      let r := match wk with
+        | [k, n] => r.addCover s!"crypt-underlying-writer-{k}-{if (cryptionHandler C limit key cl body inner).body.length ≤ n.toNat?.getD 0 then "takes-everything" else "takes-a-prefix"}"
+        | _ => r
       let r := if m0.ran then r.addCover s!"crypt-handler-outcome-{if hk = "" then "ok" else hk}{if reply.isEmpty then "-no-reply" else "-reply"}" else r
       let frame := frameName cl body
       let content : Except String Bytes :=
@@ -529,7 +606,7 @@ def runCryptLine (r : Report) (sec : Nat) (key : Bytes) (limit : Int) (l : Line)
       let r := match cryptSeenMonitor C key cl body obs with
         | some msg => r.violation sec l.idx s!"{msg} [framing {frame}, limit {limit}] [{showResp obs}]"
         | none => if cl ≠ 0 ∧ obs.ran then r.addCover s!"crypt-seen-is-decryption-of-whole-body-{frame}" else r
-      if C.keyOk key ∧ wholeBody limit cl body then
+      if C.keyOk key ∧ wholeBody limit cl body ∧ part (cryptionHandler C limit key cl body inner) = cryptionHandler C limit key cl body inner then
         match cryptMonitor C key (properlyEncrypted C key body) reply obs with
         | some msg => r.violation sec l.idx s!"{msg} [framing {frame}] [{showResp obs}]"
         | none => if (properlyEncrypted C key body).isSome then r.addCover s!"crypt-roundtrip-checked-{frame}" else r
@@ -803,6 +880,10 @@ def runSection (r : Report) (s : Section) : Report :=
     let rd := kvInt s.cfg "rd" 0
     let h0 : Hist := if rd > 0 then { resetTime := t0, resetDuration := rd } else { resetTime := t0 }
     (s.lines.foldl (fun (acc : Report × TpSt) l => runTpLine acc.1 s.idx acc.2 l) (r, { hist := h0, clock := t0 })).1
+  | some "tpc" =>
+    match (kv? s.cfg "s").bind unhexStr, (kv? s.cfg "p").bind unhexStr with
+    | some sc, some pv => s.lines.foldl (fun acc l => runTpcLine acc s.idx sc pv l) r
+    | _, _ => r.mismatch s.idx 0 "bad-section" (joinSp s.cfg)
   | some "text" => s.lines.foldl (fun acc l => runTextLine acc s.idx l) r
   | some "rest" =>
     match parseRestCfg s.cfg with
